@@ -6,6 +6,7 @@ mod campaign;
 mod cfg;
 mod e1;
 mod e2;
+mod e3;
 mod trace;
 mod evidence;
 mod model;
@@ -63,6 +64,70 @@ fn main() {
     match a.prop.as_str() {
         "e2-worker" => std::process::exit(e2::worker_main(&argv[2..])),
         "e2-verify" => std::process::exit(e2::verify_main(&argv[2..])),
+        "e3-shard" => std::process::exit(props::conc::shard_main(&argv[2..])),
+        "e3-debug" => std::process::exit(props::conc::debug_main(&argv[2..])),
+        "scenarios" => {
+            // debug: run the directed scenarios of one property and print their verdicts
+            let mut run = evidence::Run::new(&argv[2], Tier::Quick, 1, "exploration");
+            let open = scenarios::run_for(&mut run, &argv[2]);
+            println!("{}", serde_json::to_string_pretty(&run.coverage["directed_scenarios"]).unwrap_or_default());
+            println!("open known findings failing: {:?}", open);
+            let _ = std::fs::remove_dir_all(e1::scratch_root());
+            std::process::exit(0);
+        }
+        "dbg-race" => {
+            // debug: acknowledged key must be readable by a transaction begun afterwards, while a
+            // thread rotates the memtable and the background task flushes
+            let dir = e1::scratch_root().join("race");
+            let _ = std::fs::remove_dir_all(&dir);
+            let manual = argv.get(2).map(|s| s == "manual").unwrap_or(false);
+            surrealkv::verif::set_manual_background(manual);
+            let cfg = cfg::Cfg { flush_on_close: false, max_memtable_size: 64 * 1024, memtable_stall: 4, l0_max_files: 2, l0_stall: 8, ..Default::default() };
+            let rt = tokio::runtime::Builder::new_multi_thread().worker_threads(8).enable_all().build().unwrap();
+            rt.block_on(async {
+                let t = std::sync::Arc::new(cfg.open(&dir).unwrap());
+                let stop = std::sync::Arc::new(std::sync::atomic::AtomicBool::new(false));
+                let t2 = t.clone();
+                let s2 = stop.clone();
+                let rot = tokio::task::spawn_blocking(move || {
+                    let mut n = 0u64;
+                    while !s2.load(std::sync::atomic::Ordering::SeqCst) {
+                        let _ = t2.verif_rotate();
+                        if manual {
+                            let _ = t2.verif_flush_one();
+                            let _ = t2.verif_compact_once();
+                        } else {
+                            t2.verif_wake_background();
+                        }
+                        n += 1;
+                        std::thread::sleep(std::time::Duration::from_micros(300));
+                    }
+                    n
+                });
+                let mut misses = 0;
+                for i in 0..20000u64 {
+                    let k = format!("k{}", i % 7).into_bytes();
+                    let v = i.to_be_bytes().to_vec();
+                    let mut tx = t.begin().unwrap();
+                    tx.set(&k, &v).unwrap();
+                    tx.commit().await.unwrap();
+                    drop(tx);
+                    let rd = t.begin_with_mode(surrealkv::Mode::ReadOnly).unwrap();
+                    let got = rd.get(&k).unwrap();
+                    if got.as_deref() != Some(&v[..]) {
+                        misses += 1;
+                        if misses < 5 {
+                            println!("MISS at i={} horizon {} got {:?} layout {:?}", i, rd.verif_start_seq(), got.map(|g| u64::from_be_bytes(g[..8].try_into().unwrap())), t.verif_layout().map(|l| (l.immutables, l.tables.len())));
+                        }
+                    }
+                }
+                stop.store(true, std::sync::atomic::Ordering::SeqCst);
+                let n = rot.await.unwrap();
+                println!("rotations {} misses {}", n, misses);
+                let _ = t.close().await;
+            });
+            std::process::exit(0);
+        }
         "dbg-open" => {
             // debug: open a directory with default options, commit a probe, close, reopen
             let dir = std::path::PathBuf::from(&argv[2]);
